@@ -67,8 +67,10 @@ func c01ReducedTexts() []string {
 type c01Case struct {
 	Routes []string `json:"routes_in_registration_order"`
 	Method []string `json:"methods,omitempty"` // flame level: method of each route
-	Req    string   `json:"request_method,omitempty"`
-	Path   string   `json:"path"`
+	// Spelled: the request line spells the letters of the path as percent-escapes (same path for net/http)
+	Spelled bool   `json:"request_line_percent_escaped,omitempty"`
+	Req     string `json:"request_method,omitempty"`
+	Path    string `json:"path"`
 }
 
 type c01Env struct {
@@ -250,6 +252,32 @@ func newReq(method, path string) *http.Request {
 	}
 }
 
+// newReqSpelled: the request a server builds from a request line that spells every letter and digit of
+// path as a percent-escape (url.ParseRequestURI, as net/http does): the same path, another spelling.
+// ok=false when the path has no such request line.
+func newReqSpelled(method, path string) (*http.Request, bool) {
+	if !strings.HasPrefix(path, "/") {
+		return nil, false
+	}
+	var b strings.Builder
+	for i := 0; i < len(path); i++ {
+		c := path[i]
+		if c >= 'a' && c <= 'z' || c >= 'A' && c <= 'Z' || c >= '0' && c <= '9' {
+			fmt.Fprintf(&b, "%%%02X", c)
+		} else {
+			b.WriteByte(c)
+		}
+	}
+	u, err := url.ParseRequestURI(b.String())
+	if err != nil || u.Path != path || u.RawPath == "" {
+		return nil, false
+	}
+	req := newReq(method, path)
+	req.URL = u
+	req.RequestURI = b.String()
+	return req, true
+}
+
 // c01FlameEval builds a Flame with the given (method, route) registrations and serves one request.
 func c01FlameBuild(rs []catRoute, methods []string) (f *flamego.Flame, hit *int, ok bool) {
 	f = flamego.NewWithLogger(io.Discard)
@@ -311,7 +339,16 @@ func c01FlamePhase(r *core.Run, cat []catRoute, paths []string) {
 				}
 				l.States++
 				for _, rm := range reqMethods {
-					for _, p := range paths {
+					for pi := 0; pi < 2*len(paths); pi++ {
+						p, spelled := paths[pi/2], pi%2 == 1
+						req := newReq(rm, p)
+						if spelled {
+							var ok bool
+							if req, ok = newReqSpelled(rm, p); !ok {
+								continue
+							}
+							l.Extra["flame_requests_with_percent_escaped_request_line"]++
+						}
 						l.Evals++
 						l.Transitions++
 						l.Traces++
@@ -319,10 +356,10 @@ func c01FlamePhase(r *core.Run, cat []catRoute, paths []string) {
 						spy := &c01Spy{hdr: http.Header{}}
 						pan := func() (pv interface{}) {
 							defer func() { pv = recover() }()
-							f.ServeHTTP(spy, newReq(rm, p))
+							f.ServeHTTP(spy, req)
 							return nil
 						}()
-						cs := c01Case{Routes: c01Texts(rs), Method: ms, Req: rm, Path: p}
+						cs := c01Case{Routes: c01Texts(rs), Method: ms, Req: rm, Path: p, Spelled: spelled}
 						if pan != nil {
 							l.Violate("flame/panic", fmt.Sprintf("ServeHTTP panicked: %v", pan), cs)
 							continue
@@ -437,7 +474,7 @@ func c01Run(r *core.Run) {
 		fl = fl[:26]
 	}
 	c01FlamePhase(r, fl, pathsOver(alpha, 2, specials))
-	r.Bounds["flame_level"] = fmt.Sprintf("ordered pairs of %d reduced routes x method assignments {GG,GP,PG} x request methods {GET,POST,BREW} x paths<=2 segments", len(fl))
+	r.Bounds["flame_level"] = fmt.Sprintf("ordered pairs of %d reduced routes x method assignments {GG,GP,PG} x request methods {GET,POST,BREW} x paths<=2 segments, each also with its letters percent-escaped in the request line", len(fl))
 }
 
 func c01Replay(raw json.RawMessage) (bool, string) {
@@ -470,7 +507,11 @@ func c01Replay(raw json.RawMessage) (bool, string) {
 	spy := &c01Spy{hdr: http.Header{}}
 	pan := func() (pv interface{}) {
 		defer func() { pv = recover() }()
-		f.ServeHTTP(spy, newReq(c.Req, c.Path))
+		req := newReq(c.Req, c.Path)
+		if c.Spelled {
+			req, _ = newReqSpelled(c.Req, c.Path)
+		}
+		f.ServeHTTP(spy, req)
 		return nil
 	}()
 	if pan != nil {
